@@ -128,10 +128,27 @@ fn judge_span(s: &Span, m: &M) -> Option<String> {
         let flags = (s.signum(), s.is_zero(), s.is_positive(), s.is_negative());
         let wflags = (m.sign, m.sign == 0, m.sign > 0, m.sign < 0);
         if g != want || mixed || flags != wflags {
-            Some(format!("jiff {} (is_zero {}, is_positive {}, is_negative {}) | model {} signum {}", show_span(s), flags.1, flags.2, flags.3, m.show(), m.sign))
-        } else {
-            None
+            return Some(format!("jiff {} (is_zero {}, is_positive {}, is_negative {}) | model {} signum {}", show_span(s), flags.1, flags.2, flags.3, m.show(), m.sign));
         }
+        // A span is a value: it must BEHAVE like any other span holding the
+        // same integers, however it was produced (hidden state such as a
+        // cached set of non-zero units must not leak into later operations).
+        if let Some(fresh) = build(m) {
+            let probe = |x: &Span| -> String {
+                format!(
+                    "{:?}|{:?}|{:?}|{:?}",
+                    jiff::SignedDuration::try_from(*x).ok(),
+                    jiff::Timestamp::UNIX_EPOCH.checked_add(*x).ok(),
+                    jiff::civil::Time::midnight().checked_add(*x).ok(),
+                    x.total(jiff::Unit::Second).ok().map(|f| f.to_bits()),
+                )
+            };
+            let (a, b) = (probe(s), probe(&fresh));
+            if a != b {
+                return Some(format!("behaves differently from a span built from the same fields {}: [try_into SignedDuration | epoch+span | midnight+span | total(Second)] = {} vs {}", m.show(), a, b));
+            }
+        }
+        None
     });
     match res {
         Ok(x) => x,
